@@ -35,6 +35,7 @@ use serde_json::{json, Value};
 use verif_harness::common::*;
 use verif_harness::gen::elf_c19::*;
 use verif_harness::gen::perfdata::*;
+use verif_harness::gen::perfdata_bid::*;
 
 #[allow(dead_code)]
 mod preparse {
@@ -283,8 +284,30 @@ fn exec_raw(ops: &[String], stats: &mut Stats) -> Vec<String> {
     // built as text so that a repeated key can be expressed
     let mut doc = json!({"meta": {"version": 24}});
     let mut dups: Vec<(String, String)> = Vec::new();
+    let mut objks: Vec<(String, String)> = Vec::new();
     for (n, l) in ops[1..].iter().enumerate() {
         let w: Vec<&str> = l.split_whitespace().collect();
+        if w.len() >= 2 && w[0] == "objk" {
+            // a library object whose members are given as (key text, value) pairs, in order, duplicates allowed:
+            // written as text in place of a marker member
+            let mut members: Vec<String> = Vec::new();
+            for m in &w[2..] {
+                let Some((k, v)) = m.split_once('=') else {
+                    return vec!["bad-op".to_string()];
+                };
+                let (Some(k), Some(Some(v))) = (k.strip_prefix("k:").and_then(utf8), raw_field(v)) else {
+                    return vec!["bad-op".to_string()];
+                };
+                members.push(format!("{}:{}", serde_json::to_string(&k).unwrap(), serde_json::to_string(&v).unwrap()));
+                stats.bump(if KEYS.contains(&k.as_str()) { "objk_exact_key" } else { "objk_other_key" });
+            }
+            let marker = format!("zzObjk{n}");
+            let mut obj = serde_json::Map::new();
+            obj.insert(marker.clone(), Value::Null);
+            objks.push((marker, members.join(",")));
+            place(&mut doc, w[1], Value::Object(obj));
+            continue;
+        }
         if w.len() != 10 || w[0] != "obj" {
             return vec!["bad-op".to_string()];
         }
@@ -312,6 +335,9 @@ fn exec_raw(ops: &[String], stats: &mut Stats) -> Vec<String> {
     let mut text = serde_json::to_string(&doc).unwrap();
     for (marker, key) in dups {
         text = text.replace(&format!("\"{marker}\":null"), &format!("\"{key}\":null"));
+    }
+    for (marker, members) in objks {
+        text = text.replace(&format!("\"{marker}\":null"), &members);
     }
     let dir = case_dir(ops);
     let pj = dir.join("p.json");
@@ -411,13 +437,16 @@ fn samply_cmd(home: &Path) -> Command {
     cmd
 }
 
-fn start_server(profile: &Path, home: &Path) -> Result<Server, String> {
+fn start_server(profile: &Path, home: &Path, other_cwd: bool) -> Result<Server, String> {
     static PORT: AtomicU64 = AtomicU64::new(0);
     for _attempt in 0..5 {
         let k = PORT.fetch_add(1, Ordering::SeqCst);
         let base = 20000 + ((std::process::id() as u64 * 37 + k * 101) % 400) * 100;
         let mut cmd = samply_cmd(home);
         cmd.arg("load").arg(profile).arg("--no-open").arg("--port").arg(format!("{base}+"));
+        if other_cwd {
+            cmd.current_dir(home);
+        }
         cmd.stdin(Stdio::null()).stdout(Stdio::piped()).stderr(Stdio::piped());
         let mut child = cmd.spawn().map_err(|e| format!("err:spawn:{e}"))?;
         let stdout = child.stdout.take().unwrap();
@@ -519,10 +548,21 @@ struct E2e {
     files: Vec<FileOp>,
     maps: Vec<(usize, u64, u64, u64)>,
     hits: Vec<(usize, u64)>,
+    /// build id the recording carries for a file: (file, `m` = in the MMAP2 records / `h` = header entry with the
+    /// length stored / `hz` = header entry without, id bytes as written)
+    recs: Vec<(usize, String, Vec<u8>)>,
+    /// `<path>.dbg` companions: (file, `same` = byte-identical copy / `stale` = other build id, other symbol names)
+    dbgs: Vec<(usize, String)>,
+    /// import with a relative perf.data path from the case directory, load from another working directory
+    relcwd: bool,
+    /// `--unstable-presymbolicate`: a `.syms.json` sidecar is written next to the profile and loaded by `samply load`
+    presym: bool,
+    /// names of the two profile files (default `out.json`, `out.json.gz`)
+    names: Option<(String, String)>,
 }
 
 fn parse_e2e(ops: &[String]) -> Option<E2e> {
-    let mut e = E2e { files: vec![], maps: vec![], hits: vec![] };
+    let mut e = E2e { files: vec![], maps: vec![], hits: vec![], recs: vec![], dbgs: vec![], relcwd: false, presym: false, names: None };
     for l in &ops[1..] {
         let w: Vec<&str> = l.split_whitespace().collect();
         match w.first().copied()? {
@@ -559,6 +599,34 @@ fn parse_e2e(ops: &[String]) -> Option<E2e> {
             }
             "map" => e.maps.push((w.get(1)?.parse().ok()?, w.get(2)?.parse().ok()?, w.get(3)?.parse().ok()?, w.get(4)?.parse().ok()?)),
             "hit" => e.hits.push((w.get(1)?.parse().ok()?, w.get(2)?.parse().ok()?)),
+            "rec" => {
+                let how = *w.get(2)?;
+                let id = unhex(w.get(3)?);
+                if !["m", "h", "hz"].contains(&how) || id.len() > 20 || w.len() != 4 {
+                    return None;
+                }
+                e.recs.push((w.get(1)?.parse().ok()?, how.to_string(), id));
+            }
+            "dbg" => {
+                let how = *w.get(2)?;
+                if !["same", "stale"].contains(&how) || w.len() != 3 {
+                    return None;
+                }
+                e.dbgs.push((w.get(1)?.parse().ok()?, how.to_string()));
+            }
+            "opt" => match *w.get(1)? {
+                "relcwd" => e.relcwd = true,
+                "presym" => e.presym = true,
+                "names" => {
+                    let (a, b) = (utf8(w.get(2)?)?, utf8(w.get(3)?)?);
+                    let ok = |n: &str| !n.is_empty() && !n.contains('/') && n != "." && n != ".." && n != "perf.data" && !n.contains("syms.json");
+                    if !ok(&a) || !ok(&b) || a == b {
+                        return None;
+                    }
+                    e.names = Some((a, b));
+                }
+                _ => return None,
+            },
             _ => return None,
         }
     }
@@ -599,7 +667,7 @@ fn exec_e2e(ops: &[String], stats: &mut Stats) -> Vec<String> {
     };
     // a shrunk case may have lost the `file` / `map` line a later line refers to
     let n = e.files.len();
-    if e.maps.iter().any(|m| m.0 >= n) || e.hits.iter().any(|h| h.0 >= n) || e.files.is_empty() {
+    if e.maps.iter().any(|m| m.0 >= n) || e.hits.iter().any(|h| h.0 >= n) || e.files.is_empty() || e.recs.iter().any(|r| r.0 >= n) || e.dbgs.iter().any(|d| d.0 >= n) {
         return vec!["bad-op".to_string()];
     }
     let dir = case_dir(ops);
@@ -636,6 +704,34 @@ fn exec_e2e(ops: &[String], stats: &mut Stats) -> Vec<String> {
             }
         }
     }
+    // `<path>.dbg` companions (helper.rs:509-515 tries them before the binary when the debug path ends in `.so`)
+    for (i, how) in &e.dbgs {
+        let f = &e.files[*i];
+        let (FileKind::Gen(spec), true) = (&f.kind, f.present) else { continue };
+        let bytes = if how == "same" {
+            write_elf(spec)
+        } else {
+            let mut stale = spec.clone();
+            stale.build_id = Some(match &spec.build_id {
+                Some(b) if !b.is_empty() => {
+                    let mut b = b.clone();
+                    b[0] ^= 0xff;
+                    b
+                }
+                _ => vec![0x5a; 20],
+            });
+            for sym in &mut stale.syms {
+                sym.name = format!("stale_{}", sym.name);
+            }
+            write_elf(&stale)
+        };
+        let p = dir.join(format!("{}.dbg", f.name.strip_prefix("reloc/").unwrap_or(&f.name)));
+        if std::fs::write(&p, &bytes).is_err() {
+            let _ = std::fs::remove_dir_all(&dir);
+            return vec!["bad-op".to_string()];
+        }
+        stats.bump(&format!("e2e_dbg_{how}"));
+    }
     // the recording: one process, one MMAP2 per `map`, one sample per `hit` (leaf frame only, so that the
     // recorded relative address is the hit itself)
     let mut recs = vec![Rec::Comm { pid: 100, tid: 100, name: "app".to_string(), exec: false, t: 1_000_000 }];
@@ -655,14 +751,70 @@ fn exec_e2e(ops: &[String], stats: &mut Stats) -> Vec<String> {
         recs.push(Rec::Sample { pid: 100, tid: 100, t, kernel: false, period: 1_000_000, ip: avma, chain: vec![CTX_USER, avma] });
         stats.bump("e2e_hits");
     }
-    let h = History { recs, ..Default::default() };
     let data = dir.join("perf.data");
-    write_perf_data(&h, &data, &mut Rng::new(fnv1a(ops)));
+    if e.recs.is_empty() {
+        let h = History { recs, ..Default::default() };
+        write_perf_data(&h, &data, &mut Rng::new(fnv1a(ops)));
+    } else {
+        // the recording carries build ids: in the MMAP2 records of a file and / or as header entries for its path
+        let mut header: Vec<BuildIdDecl> = Vec::new();
+        for (i, how, id) in &e.recs {
+            stats.bump(&format!("e2e_rec_{how}"));
+            let relation = match (&facts[*i], e.files[*i].present) {
+                (_, false) => "file_absent",
+                (Some(f), _) => match &f.build_id {
+                    None => "file_without_note",
+                    Some(b) if b == id => "equal",
+                    Some(b) if b.len() == id.len() && b[..b.len().min(16)] == id[..id.len().min(16)] => "differs_after_byte_16",
+                    Some(b) if b.len() > id.len() && b[..id.len()] == id[..] => "truncated",
+                    Some(_) => "differs",
+                },
+                (None, _) => "unparsed",
+            };
+            stats.bump(&format!("e2e_rec_vs_file_{relation}"));
+            if how != "m" {
+                header.push(BuildIdDecl { path: format!("{}/{}", dir_s, e.files[*i].name), id: id.clone(), sized: how == "h" });
+            }
+        }
+        let mut brecs: Vec<BidRec> = Vec::new();
+        let mut k = 0usize; // index into e.maps, in the order the MMAP2 records were pushed
+        for r in recs {
+            match r {
+                Rec::Mmap2 { pid, tid, addr, len, pgoff, path, t, .. } => {
+                    let i = e.maps[k].0;
+                    k += 1;
+                    match e.recs.iter().rev().find(|x| x.0 == i && x.1 == "m") {
+                        Some((_, _, id)) => brecs.push(BidRec::Mmap2Bid { pid, tid, addr, len, pgoff, path, t, build_id: id.clone() }),
+                        None => brecs.push(BidRec::Plain(Rec::Mmap2 { pid, tid, addr, len, pgoff, exec: true, path, t })),
+                    }
+                }
+                other => brecs.push(BidRec::Plain(other)),
+            }
+        }
+        write_perf_data_bid(&brecs, &header, &data);
+    }
     let mut out = Vec::new();
     let mut profiles: Vec<(&str, PathBuf)> = Vec::new();
-    for (fmt, fname) in [("json", "out.json"), ("gz", "out.json.gz")] {
+    let (name_a, name_b) = e.names.clone().unwrap_or(("out.json".to_string(), "out.json.gz".to_string()));
+    for (fmt, fname) in [("json", name_a.as_str()), ("gz", name_b.as_str())] {
         let p = dir.join(fname);
-        let res = samply_cmd(&home).arg("import").arg(&data).arg("--save-only").arg("-o").arg(&p).output();
+        let mut cmd = samply_cmd(&home);
+        cmd.arg("import");
+        if e.relcwd {
+            // relative input and output paths, resolved against the case directory
+            cmd.current_dir(&dir).arg("perf.data").arg("--save-only").arg("-o").arg(fname);
+            stats.bump("e2e_opt_relcwd");
+        } else {
+            cmd.arg(&data).arg("--save-only").arg("-o").arg(&p);
+        }
+        if e.presym {
+            cmd.arg("--unstable-presymbolicate");
+            stats.bump("e2e_opt_presym");
+        }
+        if e.names.is_some() {
+            stats.bump("e2e_opt_names");
+        }
+        let res = cmd.output();
         match res {
             Ok(r) if r.status.success() => profiles.push((fmt, p)),
             Ok(r) => {
@@ -676,9 +828,10 @@ fn exec_e2e(ops: &[String], stats: &mut Stats) -> Vec<String> {
         let _ = std::fs::remove_dir_all(&dir);
         return out;
     }
-    let read_profile = |fmt: &str, p: &Path| -> Option<Value> {
+    let read_profile = |_fmt: &str, p: &Path| -> Option<Value> {
         let bytes = std::fs::read(p).ok()?;
-        let bytes = if fmt == "gz" {
+        // by content, not by name: which names are compressed is samply's decision (three places must agree)
+        let bytes = if bytes.starts_with(&[0x1f, 0x8b]) {
             let mut d = flate2::read::GzDecoder::new(&bytes[..]);
             let mut v = Vec::new();
             d.read_to_end(&mut v).ok()?;
@@ -700,7 +853,9 @@ fn exec_e2e(ops: &[String], stats: &mut Stats) -> Vec<String> {
         .iter()
         .map(|l| {
             let tag = hex(l["path"].as_str().unwrap_or("?").replace(&dir_s, "$D").as_bytes());
-            ser_line(&tag, l, &dir_s)
+            // the typed reading of the written breakpadId by the real `debugid` (what the judge keys on)
+            let typed = l["breakpadId"].as_str().and_then(|b| DebugId::from_breakpad(b).ok()).map(|d| show_debug_id(&d)).unwrap_or("bad".to_string());
+            format!("{} id={typed}", ser_line(&tag, l, &dir_s))
         })
         .collect();
     sers.sort();
@@ -734,7 +889,7 @@ fn exec_e2e(ops: &[String], stats: &mut Stats) -> Vec<String> {
         direct.insert(i, if Path::new(path).is_file() { direct_lookup(&rt, Path::new(path), &addrs) } else { None });
     }
     for (fmt, p) in &profiles {
-        let server = match start_server(p, &home) {
+        let server = match start_server(p, &home, e.relcwd) {
             Ok(s) => s,
             Err(e) => {
                 out.push(format!("load {fmt} {e}"));
@@ -1021,6 +1176,117 @@ fn gen_raw(rng: &mut Rng) -> Vec<String> {
     ops
 }
 
+/// mangled spellings of a key: each must be an unknown key to the reader
+fn mangle_key(rng: &mut Rng, k: &str) -> String {
+    let snake: String = k.chars().flat_map(|c| if c.is_ascii_uppercase() { vec!['_', c.to_ascii_lowercase()] } else { vec![c] }).collect();
+    let mut pascal = k.to_string();
+    pascal[..1].make_ascii_uppercase();
+    let swapped: String = {
+        // flip the case of one letter
+        let cs: Vec<char> = k.chars().collect();
+        let i = rng.below(cs.len() as u64) as usize;
+        cs.iter().enumerate().map(|(j, c)| if j == i { if c.is_ascii_uppercase() { c.to_ascii_lowercase() } else { c.to_ascii_uppercase() } } else { *c }).collect()
+    };
+    match rng.below(9) {
+        0 => snake,
+        1 => pascal,
+        2 => k.to_ascii_lowercase(),
+        3 => k.to_ascii_uppercase(),
+        4 => format!("{k} "),
+        5 => format!("_{k}"),
+        6 => k.replace("Id", "ID").replace("Name", "name_"),
+        7 => format!("{k}\u{0}"),
+        _ => swapped,
+    }
+}
+
+fn objk_line(slot: &str, members: &[(String, String)]) -> String {
+    let ms: Vec<String> = members.iter().map(|(k, v)| format!("k:{}={v}", hex(k.as_bytes()))).collect();
+    format!("objk {slot} {}", ms.join(" "))
+}
+
+/// a well-formed library with the writer's seven keys, as (key, value) members
+fn objk_base(rng: &mut Rng) -> Vec<(String, String)> {
+    let name = gen_name(rng);
+    let s = |t: &str| format!("s:{}", hex(t.as_bytes()));
+    let bp = format!("{}{:x}", hex(&gen_bytes(rng, 16)).to_uppercase(), rng.below(40));
+    vec![
+        ("name".to_string(), s(&name)),
+        ("path".to_string(), s(&format!("/usr/lib/{name}"))),
+        ("debugName".to_string(), s(&name)),
+        ("debugPath".to_string(), s(&format!("/usr/lib/debug/{name}"))),
+        ("breakpadId".to_string(), s(&bp)),
+        ("codeId".to_string(), if rng.chance(1, 3) { "null".to_string() } else { s(&hex(&gen_bytes(rng, 20))) }),
+        ("arch".to_string(), if rng.chance(1, 2) { "null".to_string() } else { s("x86_64") }),
+    ]
+}
+
+/// reader probe for key names: libraries whose keys are spelled exactly / with one key mangled / with a mangled
+/// key next to the exact one / with keys in another order
+fn gen_objk(rng: &mut Rng) -> Vec<String> {
+    let mut ops = vec!["kind raw".to_string()];
+    let n = rng.range(1, 3);
+    for _ in 0..n {
+        let mut m = objk_base(rng);
+        match rng.below(6) {
+            0 => {}
+            1 | 2 => {
+                let i = rng.below(7) as usize;
+                m[i].0 = mangle_key(rng, &m[i].0.clone());
+            }
+            3 => {
+                // the mangled spelling in addition to the exact one (with another value): the exact one counts
+                let i = rng.below(7) as usize;
+                let k = mangle_key(rng, &m[i].0.clone());
+                let at = rng.below(8) as usize;
+                m.insert(at.min(m.len()), (k, format!("s:{}", hex(b"decoy"))));
+            }
+            4 => rng.shuffle(&mut m),
+            _ => {
+                // the same exact key twice: serde refuses the document
+                let i = rng.below(7) as usize;
+                let dup = m[i].clone();
+                m.push(dup);
+            }
+        }
+        ops.push(objk_line(&gen_slot(rng), &m));
+    }
+    ops
+}
+
+fn boundary_objk() -> Vec<Case> {
+    let mut v = Vec::new();
+    let mut rng = Rng::new(0xC19_0B);
+    let base = |rng: &mut Rng| -> Vec<(String, String)> {
+        let mut m = objk_base(rng);
+        m[0].1 = format!("s:{}", hex(b"libk.so"));
+        m[2].1 = format!("s:{}", hex(b"libk.so"));
+        m
+    };
+    // exact spelling, then every key individually mangled in every way
+    v.push(Case { name: "k-exact".to_string(), ops: vec!["kind raw".to_string(), objk_line("top", &base(&mut rng))] });
+    for i in 0..7 {
+        let exact = KEYS[i];
+        let snake: String = exact.chars().flat_map(|c| if c.is_ascii_uppercase() { vec!['_', c.to_ascii_lowercase()] } else { vec![c] }).collect();
+        let mut pascal = exact.to_string();
+        pascal[..1].make_ascii_uppercase();
+        let mut spellings = vec![pascal, exact.to_ascii_lowercase(), exact.to_ascii_uppercase(), format!("{exact}_"), format!(" {exact}")];
+        if snake != exact {
+            spellings.push(snake);
+            spellings.push(exact.replace("Id", "ID").replace("Name", "NAME").replace("Path", "path"));
+        }
+        for (j, sp) in spellings.iter().enumerate() {
+            if sp == exact {
+                continue;
+            }
+            let mut m = base(&mut rng);
+            m[i].0 = sp.clone();
+            v.push(Case { name: format!("k-{exact}-{j}"), ops: vec!["kind raw".to_string(), objk_line("top", &m)] });
+        }
+    }
+    v
+}
+
 struct Fixture {
     rel: &'static str,
     facts: ElfFacts,
@@ -1139,14 +1405,50 @@ fn gen_mapping(rng: &mut Rng, seg_off: u64, seg_size: u64, text_off: u64, text_s
 
 struct E2eBuilder {
     ops: Vec<String>,
+    /// `rec` / `opt` / `dbg` lines (after the `file` lines, before the `map` lines)
+    extras: Vec<String>,
     maps: Vec<String>,
     hits: Vec<String>,
     n: usize,
 }
 
+/// how the build id of the recording relates to the file's
+#[derive(Clone, Copy, Debug, PartialEq)]
+enum RecRel {
+    Equal,
+    /// equal in the first 16 bytes (same debug id), different after
+    TailDiffers,
+    FirstByteDiffers,
+    /// the first `min(len, 20)` bytes of a longer id (what `perf record` stores for ids over 20 bytes)
+    Truncated,
+}
+
+fn rec_id_for(file_id: &[u8], rel: RecRel) -> Vec<u8> {
+    let mut id: Vec<u8> = file_id.iter().copied().take(20).collect();
+    match rel {
+        RecRel::Equal | RecRel::Truncated => {}
+        RecRel::TailDiffers => {
+            if id.len() > 16 {
+                let k = id.len() - 1;
+                id[k] ^= 0x01;
+            } else {
+                id.push(0x77);
+            }
+        }
+        RecRel::FirstByteDiffers => {
+            if id.is_empty() {
+                id.push(1);
+            } else {
+                id[0] ^= 0x80;
+            }
+        }
+    }
+    id
+}
+
 impl E2eBuilder {
     fn new() -> Self {
-        E2eBuilder { ops: vec!["kind e2e".to_string()], maps: vec![], hits: vec![], n: 0 }
+        E2eBuilder { ops: vec!["kind e2e".to_string()], extras: vec![], maps: vec![], hits: vec![], n: 0 }
     }
     fn add_gen(&mut self, rng: &mut Rng, name: &str, present: bool, bid: Option<Vec<u8>>, nhits: usize) -> usize {
         let (spec, expect) = gen_spec(rng, bid);
@@ -1219,9 +1521,13 @@ impl E2eBuilder {
             self.hits.push(format!("hit {i} {rel} {}", hex(name.as_bytes())));
         }
     }
+    fn rec(&mut self, i: usize, how: &str, id: &[u8]) {
+        self.extras.push(format!("rec {i} {how} {}", hex(id)));
+    }
     fn finish(mut self, rng: &mut Rng) -> Vec<String> {
         // hits of different files interleaved: the order of first use decides the order of `libs[]`
         rng.shuffle(&mut self.hits);
+        self.ops.extend(self.extras);
         self.ops.extend(self.maps);
         self.ops.extend(self.hits);
         self.ops
@@ -1236,7 +1542,185 @@ fn e2e_name(rng: &mut Rng, k: usize) -> String {
     format!("d{k}/{n}")
 }
 
+const NAME_PAIRS: [(&str, &str); 6] = [
+    ("x", "x.gz"),
+    ("prof.JSON.GZ", "prof.gz"),
+    ("out.profile", "out.json.GZ.gz"),
+    ("a b.json", "é.json.gz"),
+    ("p.gz.json", "p.json.gz"),
+    ("noext", "NOEXT.GZ"),
+];
+
+fn how_for(rng: &mut Rng, id: &[u8]) -> &'static str {
+    // a header entry without the stored length loses trailing zero groups: only `hz` for ids that survive,
+    // except in the dedicated boundary case
+    let survives = id.len() == 20 && id[16..].iter().any(|b| *b != 0);
+    match rng.below(3) {
+        0 => "m",
+        1 => "h",
+        _ if survives => "hz",
+        _ => "h",
+    }
+}
+
+/// end-to-end case in which the recording carries build ids (what every real `perf record` file does)
+fn gen_e2e_rec(rng: &mut Rng) -> Vec<String> {
+    let mut b = E2eBuilder::new();
+    let nfiles = rng.range(1, 3) as usize;
+    for k in 0..nfiles {
+        let name = if rng.chance(1, 2) { format!("d{k}/lib{k}.so") } else { e2e_name(rng, k) };
+        match rng.below(12) {
+            0 => {
+                // file absent at import time, the recording knows its build id (converter case 4 with identity)
+                let id = gen_bytes(rng, 20);
+                let i = b.add_gen(rng, &name, false, Some(id.clone()), 2);
+                let how = how_for(rng, &id);
+                b.rec(i, how, &id);
+            }
+            1 => {
+                // file without a note, the recording names an id: dropped
+                let i = b.add_gen(rng, &name, true, None, 2);
+                let id = gen_bytes(rng, 20);
+                let how = how_for(rng, &id);
+                b.rec(i, how, &id);
+            }
+            2 => {
+                // id longer than 20 bytes: the recording has its first 20 bytes
+                let n = rng.range(21, 40) as usize;
+                let id = gen_bytes(rng, n);
+                let i = b.add_gen(rng, &name, true, Some(id.clone()), 2);
+                b.rec(i, if rng.chance(1, 2) { "m" } else { "h" }, &rec_id_for(&id, RecRel::Truncated));
+            }
+            3 | 4 => {
+                let id = gen_bytes(rng, 20);
+                let i = b.add_gen(rng, &name, true, Some(id.clone()), 2);
+                let rel = if rng.chance(2, 3) { RecRel::TailDiffers } else { RecRel::FirstByteDiffers };
+                let rid = rec_id_for(&id, rel);
+                let how = how_for(rng, &rid);
+                b.rec(i, how, &rid);
+            }
+            5 if !fixtures().is_empty() => {
+                let fx = &fixtures()[rng.below(fixtures().len() as u64) as usize];
+                let i = b.n;
+                b.add_fixture(rng, &name, fx, 3);
+                let id = fx.facts.build_id.clone().unwrap();
+                if id.len() <= 20 {
+                    let how = how_for(rng, &id);
+                    b.rec(i, how, &id);
+                }
+            }
+            6 => {
+                // moved together with the recording, id equal
+                let base = name.rsplit('/').next().unwrap().to_string();
+                let id = gen_bytes(rng, 20);
+                let i = b.add_gen(rng, &format!("reloc/r{k}-{base}"), true, Some(id.clone()), 3);
+                let how = how_for(rng, &id);
+                b.rec(i, how, &id);
+            }
+            7 => {
+                // short ids (stored with their length)
+                let n = *rng.pick(&[1usize, 4, 8, 9, 16]);
+                let id = gen_bytes(rng, n);
+                let i = b.add_gen(rng, &name, true, Some(id.clone()), 2);
+                b.rec(i, if rng.chance(1, 2) { "m" } else { "h" }, &id);
+            }
+            _ => {
+                let id = gen_bytes(rng, 20);
+                let i = b.add_gen(rng, &name, true, Some(id.clone()), 3);
+                let how = how_for(rng, &id);
+                b.rec(i, how, &id);
+            }
+        }
+    }
+    // a library that is listed in any case, so that the profile is never empty
+    let id = gen_bytes(rng, 20);
+    let i = b.add_gen(rng, "dz/always.so", true, Some(id.clone()), 2);
+    if rng.chance(1, 2) {
+        b.rec(i, "m", &id);
+    }
+    gen_opts(rng, &mut b);
+    b.finish(rng)
+}
+
+/// Is the known finding `id` recorded in `$VERIF_ROOT/KNOWN_FINDINGS.txt`? The two input families on which
+/// `--unstable-presymbolicate` violates the property are generated only then (the judge flags them with a tag that
+/// the `known:` line matches); without the line they would turn every run red.
+fn known_listed(id: &str) -> bool {
+    static TEXT: OnceLock<String> = OnceLock::new();
+    let text = TEXT.get_or_init(|| {
+        let root = std::env::var("VERIF_ROOT").unwrap_or_else(|_| "/verif".to_string());
+        std::fs::read_to_string(PathBuf::from(root).join("KNOWN_FINDINGS.txt")).unwrap_or_default()
+    });
+    text.lines().any(|l| l.starts_with("known:") && l.contains(&format!("\"id\":\"{id}\"")))
+}
+
+/// may `opt presym` be added to these op lines?
+fn presym_allowed(ops: &[String]) -> bool {
+    let mut fixtures_seen: Vec<&str> = Vec::new();
+    let mut twins = false;
+    let mut tiny_id = false;
+    for l in ops {
+        let w: Vec<&str> = l.split_whitespace().collect();
+        if w.first() != Some(&"file") {
+            continue;
+        }
+        match w.get(2).copied() {
+            Some("copy") => twins = true,
+            Some("fix") => {
+                if fixtures_seen.contains(&w[5]) {
+                    twins = true;
+                }
+                fixtures_seen.push(w[5]);
+            }
+            Some("gen") => {
+                if let Some(b) = w.get(11).and_then(|b| b.strip_prefix("b:")) {
+                    if b.len() <= 8 {
+                        tiny_id = true;
+                    }
+                }
+            }
+            _ => {}
+        }
+    }
+    (!twins || known_listed("C19-sidecar-collision")) && (!tiny_id || known_listed("C19-presym-badcodeid"))
+}
+
+/// invocation variants and `.dbg` companions: none of them may change the outcome
+fn gen_opts(rng: &mut Rng, b: &mut E2eBuilder) {
+    if rng.chance(1, 5) {
+        b.extras.push("opt relcwd".to_string());
+    }
+    if rng.chance(1, 6) && presym_allowed(&b.ops) {
+        b.extras.push("opt presym".to_string());
+    }
+    if rng.chance(1, 5) {
+        let (x, y) = rng.pick(&NAME_PAIRS);
+        b.extras.push(format!("opt names {} {}", hex(x.as_bytes()), hex(y.as_bytes())));
+    }
+    // `<path>.dbg` next to generated `.so` files
+    let so: Vec<usize> = b
+        .ops
+        .iter()
+        .filter_map(|l| {
+            let w: Vec<&str> = l.split_whitespace().collect();
+            if w.len() > 4 && w[0] == "file" && w[2] == "gen" && w[4] == "1" && utf8(w[3]).map(|n| n.ends_with(".so")).unwrap_or(false) {
+                w[1].parse().ok()
+            } else {
+                None
+            }
+        })
+        .collect();
+    for i in so {
+        if rng.chance(1, 3) {
+            b.extras.push(format!("dbg {i} {}", if rng.chance(1, 2) { "same" } else { "stale" }));
+        }
+    }
+}
+
 fn gen_e2e(rng: &mut Rng) -> Vec<String> {
+    if rng.chance(2, 5) {
+        return gen_e2e_rec(rng);
+    }
     let mut b = E2eBuilder::new();
     let nfiles = rng.range(1, 4) as usize;
     for k in 0..nfiles {
@@ -1278,6 +1762,7 @@ fn gen_e2e(rng: &mut Rng) -> Vec<String> {
             }
         }
     }
+    gen_opts(rng, &mut b);
     b.finish(rng)
 }
 
@@ -1347,6 +1832,98 @@ fn boundary_e2e() -> Vec<Case> {
         b.add_fixture(&mut rng, &format!("d0/{base}"), fx, 6);
         v.push(Case { name: format!("b-fixture{k}"), ops: b.finish(&mut rng) });
     }
+    // --- improvement round: the recording carries build ids (MMAP2 build id / HEADER_BUILD_ID) ---
+    let id20: Vec<u8> = (0..20).map(|i| 0x30 + 7 * i as u8).collect();
+    let zero_tail: Vec<u8> = (0..20).map(|i| if i < 16 { 0x41 + i as u8 } else { 0 }).collect();
+    let id32: Vec<u8> = (0..32).map(|i| 0x81 + 3 * i as u8).collect();
+    // (tag, file present, file id, how, recorded id)
+    let recs: Vec<(&str, bool, Option<Vec<u8>>, &str, Vec<u8>)> = vec![
+        ("m-equal", true, Some(id20.clone()), "m", id20.clone()),
+        ("h-equal", true, Some(id20.clone()), "h", id20.clone()),
+        ("hz-equal", true, Some(id20.clone()), "hz", id20.clone()),
+        ("m-byte20", true, Some(id20.clone()), "m", rec_id_for(&id20, RecRel::TailDiffers)),
+        ("h-byte20", true, Some(id20.clone()), "h", rec_id_for(&id20, RecRel::TailDiffers)),
+        ("m-byte17", true, Some(id20.clone()), "m", { let mut x = id20.clone(); x[16] ^= 0x10; x }),
+        ("m-byte1", true, Some(id20.clone()), "m", rec_id_for(&id20, RecRel::FirstByteDiffers)),
+        ("m-nonote", true, None, "m", id20.clone()),
+        ("h-nonote", true, None, "h", id20.clone()),
+        ("m-absent", false, Some(id20.clone()), "m", id20.clone()),
+        ("h-absent", false, Some(id20.clone()), "h", id20.clone()),
+        ("hz-zerotail-file", true, Some(zero_tail.clone()), "hz", zero_tail.clone()),
+        ("h-zerotail-file", true, Some(zero_tail.clone()), "h", zero_tail.clone()),
+        ("m-trunc32", true, Some(id32.clone()), "m", rec_id_for(&id32, RecRel::Truncated)),
+        ("m-short8", true, Some(vec![0x01, 0x23, 0x45, 0x67, 0x89, 0xab, 0xcd, 0xef]), "m", vec![0x01, 0x23, 0x45, 0x67, 0x89, 0xab, 0xcd, 0xef]),
+        ("h-short9", true, Some(vec![9, 8, 7, 6, 5, 4, 3, 2, 0xf1]), "h", vec![9, 8, 7, 6, 5, 4, 3, 2, 0xf1]),
+        ("m-prefix16", true, Some(id20.clone()), "m", id20[..16].to_vec()),
+        ("m-empty", true, Some(id20.clone()), "m", vec![]),
+    ];
+    for (tag, present, fid, how, rid) in recs {
+        let mut b = E2eBuilder::new();
+        let i = b.add_gen(&mut rng, "d0/librec.so", present, fid, 3);
+        b.rec(i, how, &rid);
+        // a second library without a recorded id keeps the profile non-empty when the first one is dropped
+        let other = gen_bytes(&mut rng, 20);
+        b.add_gen(&mut rng, "d1/other.so", true, Some(other), 2);
+        v.push(Case { name: format!("b-rec-{tag}"), ops: b.finish(&mut rng) });
+    }
+    {
+        // relocated file + recorded id; fixture + its true id; both header and MMAP2 ids on one file
+        let mut b = E2eBuilder::new();
+        let i = b.add_gen(&mut rng, "reloc/libmoved.so", true, Some(id20.clone()), 3);
+        b.rec(i, "m", &id20);
+        b.rec(i, "h", &rec_id_for(&id20, RecRel::TailDiffers)); // the MMAP2 id wins (converter.rs:775-776)
+        v.push(Case { name: "b-rec-reloc".to_string(), ops: b.finish(&mut rng) });
+    }
+    for (k, fx) in fixtures().iter().enumerate() {
+        let id = fx.facts.build_id.clone().unwrap();
+        if id.len() > 20 {
+            continue;
+        }
+        for how in ["m", "h"] {
+            let mut b = E2eBuilder::new();
+            let base = fx.rel.rsplit('/').next().unwrap();
+            b.add_fixture(&mut rng, &format!("d0/{base}"), fx, 4);
+            b.rec(0, how, &id);
+            v.push(Case { name: format!("b-rec-fixture{k}-{how}"), ops: b.finish(&mut rng) });
+        }
+    }
+    // --- invocation variants: relative paths + another cwd for `load`, output names, presymbolication ---
+    let mut variant = |tag: &str, extras: Vec<String>, reloc: bool, v: &mut Vec<Case>| {
+        let mut b = E2eBuilder::new();
+        let id = gen_bytes(&mut rng, 20);
+        b.add_gen(&mut rng, if reloc { "reloc/libv.so" } else { "d0/libv.so" }, true, Some(id), 3);
+        b.add_gen(&mut rng, "d1/nobid", true, None, 2);
+        b.extras.extend(extras);
+        v.push(Case { name: format!("b-var-{tag}"), ops: b.finish(&mut rng) });
+    };
+    variant("relcwd", vec!["opt relcwd".to_string()], false, &mut v);
+    variant("relcwd-reloc", vec!["opt relcwd".to_string()], true, &mut v);
+    variant("presym", vec!["opt presym".to_string()], false, &mut v);
+    for (k, (x, y)) in NAME_PAIRS.iter().enumerate() {
+        variant(&format!("names{k}"), vec![format!("opt names {} {}", hex(x.as_bytes()), hex(y.as_bytes()))], false, &mut v);
+    }
+    variant("names-presym-relcwd", vec!["opt relcwd".to_string(), "opt presym".to_string(), format!("opt names {} {}", hex(b"x"), hex(b"x.gz"))], true, &mut v);
+    // --- `.dbg` companions: an identical one answers like the binary, a stale one (other id) must be skipped ---
+    variant("dbg-same", vec!["dbg 0 same".to_string()], false, &mut v);
+    variant("dbg-stale", vec!["dbg 0 stale".to_string()], false, &mut v);
+    variant("dbg-stale-reloc", vec!["dbg 0 stale".to_string()], true, &mut v);
+    // --- the two known findings of `--unstable-presymbolicate` (generated once their `known:` lines exist) ---
+    if known_listed("C19-sidecar-collision") {
+        let mut b = E2eBuilder::new();
+        let (spec, expect) = gen_spec(&mut rng, Some((100..120).collect()));
+        b.ops.push(gen_file_line(0, "d0/libtwin.so", true, &spec));
+        b.n = 1;
+        b.map_and_hit_gen(&mut rng, 0, &spec, &expect, true, 3);
+        b.add_copy(&mut rng, "d1/other-name.so", 0, &spec, &expect, 3);
+        b.extras.push("opt presym".to_string());
+        v.push(Case { name: "b-known-sidecar-collision".to_string(), ops: b.finish(&mut rng) });
+    }
+    if known_listed("C19-presym-badcodeid") {
+        let mut b = E2eBuilder::new();
+        b.add_gen(&mut rng, "d0/libtiny.so", true, Some(vec![1, 2, 3, 4]), 2);
+        b.extras.push("opt presym".to_string());
+        v.push(Case { name: "b-known-presym-badcodeid".to_string(), ops: b.finish(&mut rng) });
+    }
     v
 }
 
@@ -1408,6 +1985,7 @@ impl Prop for C19 {
     }
     fn fixed_cases(&self, _tier: Tier) -> Vec<Case> {
         let mut v = boundary_fld();
+        v.extend(boundary_objk());
         v.extend(boundary_e2e());
         v
     }
@@ -1417,7 +1995,11 @@ impl Prop for C19 {
         if index % e2e_every == 0 {
             gen_e2e(rng)
         } else if index % 3 == 1 {
-            gen_raw(rng)
+            if index % 4 == 1 {
+                gen_objk(rng)
+            } else {
+                gen_raw(rng)
+            }
         } else {
             gen_fld(rng)
         }
